@@ -457,7 +457,9 @@ class SMCSampler(MCMCSampler):
             meta.get("min_step") if isinstance(meta, dict) else None
         )
         iteration = state.get("iteration", 0)
-        self.history = state.get("history", SMCHistory())
+        # Copy: the sampler appends to its history, and the caller's
+        # checkpoint dictionary must stay usable for another resume
+        self.history = copy.deepcopy(state.get("history", SMCHistory()))
         rng_state = state.get("rng_state")
         if rng_state is not None and hasattr(self.rng, "bit_generator"):
             self.rng.bit_generator.state = rng_state
